@@ -365,6 +365,15 @@ class sptensor:
         else:
             # Identify only the unique indices
             newsubs, loc = np.unique(subs, axis=0, return_inverse=True)
+            # (values of a narrow integer type are combined in the platform integer, as
+            # numpy's own reducers do: a sum of duplicates need not fit the narrow type)
+            if np.issubdtype(vals.dtype, np.integer):
+                vals = vals.astype(
+                    np.result_type(
+                        vals.dtype,
+                        np.int_ if np.issubdtype(vals.dtype, np.signedinteger) else np.uint,
+                    )
+                )
             # Sum the corresponding values
             # Squeeze to convert from column vector to row vector
             newvals = accumarray(
